@@ -30,7 +30,11 @@ func (c *brotliDecompressor) Read(bytes []byte) (int, error) {
 	return c.reader.Read(bytes)
 }
 func (c *brotliDecompressor) Reset(rdr io.Reader) error {
-	return c.reader.Reset(rdr)
+	// Always start from a fresh reader: brotli.Reader.Reset keeps input that
+	// was buffered but not consumed by the previous stream (e.g. bytes after
+	// the end of a message), which would corrupt the next message.
+	c.reader = brotli.NewReader(rdr)
+	return nil
 }
 func (c *brotliDecompressor) Close() error {
 	// brotli's Reader does not expose a Close function
